@@ -214,8 +214,11 @@ func c04Text(c *c04Chain, ws [][2]string) string {
 }
 
 func c04Choose(n int) *c04Chain {
+	return c04ChooseM(n, [][]string{c04Operand0, c04Operand1, c04Operand2, c04Operand3})
+}
+
+func c04ChooseM(n int, menus [][]string) *c04Chain {
 	c := &c04Chain{}
-	menus := [][]string{c04Operand0, c04Operand1, c04Operand2, c04Operand3}
 	c.operands = append(c.operands, menus[0][verifChoose(len(menus[0]))])
 	for i := 0; i < n; i++ {
 		oi := verifChoose(len(c04Ops))
@@ -296,6 +299,19 @@ func VerifH_C04_Whitespace() {
 			}
 		}
 		ws[i] = [2]string{" " + a, b + " "}
+	}
+	c04Check(c, c04Text(c, ws))
+}
+
+// VerifH_C04_NoSpace: the same chains written without any whitespace between tokens (the keyword
+// operators keep the blanks that delimit them) parse to the same tree; operands include the bare
+// context variable $, whose name ends where an operator such as != or ~> begins.
+func VerifH_C04_NoSpace() {
+	k := verifParam("K", 2)
+	c := c04ChooseM(k, [][]string{{"$a", "$", "in"}, {"$b", "$", "b", "/x/"}, {"$c", "$", "or"}, {"$d", "and"}})
+	ws := make([][2]string, k)
+	for i := range ws {
+		ws[i] = [2]string{"", ""}
 	}
 	c04Check(c, c04Text(c, ws))
 }
